@@ -10,6 +10,7 @@ Decided clauses:
   P4  paired writes: every function that stores _position also stores _orientation (and vice versa); the writers of either attribute
       are exactly the triaged set
   P4b both pose paths stored by apply_move/apply_rotation derive from the one path_padding(...) result (same padding for both)
+  P6  every path extension in the pose code is np.pad(..., "edge"); no cyclic np.resize; sibling pads use the same widths
   P5  (E3-ORIGIN) the only arrays written in place by the pose operations are the pose paths of the object being updated
 Not decided: the padding arithmetic of path_padding_param over unbounded integers, edge-padding content, operation sequences.
 """
@@ -251,6 +252,42 @@ def p4b(repo, res):
                                         "path_padding(...) call: position and orientation may be padded differently (front vs. behind)", st.lineno))
 
 
+def p6(repo, res):
+    """edge padding: every extension of a path-like array in the pose code uses np.pad(..., "edge") (hold the first/last entry);
+    np.resize (cyclic repetition) and constant/wrap/reflect pad modes are never a path extension.  Position and orientation are
+    padded by sibling calls with identical padding widths."""
+    mods = [repo.mod(T), repo.mod("magpylib._src.obj_classes.class_BaseGeo")]
+    n = 0
+    for m in mods:
+        for mm, qn, fn, cl in repo.all_functions():
+            if mm is not m:
+                continue
+            pads = []
+            for c in ast.walk(fn):
+                if isinstance(c, ast.Call) and isinstance(c.func, ast.Attribute) and isinstance(c.func.value, ast.Name) and c.func.value.id == "np":
+                    if c.func.attr == "pad":
+                        n += 1
+                        mode = c.args[2] if len(c.args) > 2 else next((k.value for k in c.keywords if k.arg == "mode"), None)
+                        ok = isinstance(mode, ast.Constant) and mode.value == "edge"
+                        res.ob(f"P6:{qn}:{norm(c)[:60]}", ok, {"rule": "P6", "function": qn, "pad": norm(c)})
+                        pads.append(c)
+                        if not ok:
+                            res.add(Finding("P6", m.rel, qn, c, "a path is extended with a pad mode other than 'edge': the documented semantics is to hold "
+                                            "the first/last pose", c.lineno))
+                    elif c.func.attr == "resize":
+                        res.ob(f"P6:{qn}:{norm(c)[:60]}", False)
+                        res.add(Finding("P6", m.rel, qn, c, "np.resize repeats the data cyclically: a path (or per-step anchor list) must be continued "
+                                        "with its last entry (np.pad(..., 'edge'))", c.lineno))
+            # sibling pads in one function (position/orientation) use the same widths
+            widths = {ast.unparse(c.args[1]) for c in pads if len(c.args) > 1}
+            if len(pads) >= 2 and qn.endswith("path_padding"):
+                ok = len(widths) == 1
+                res.ob(f"P6:{qn}:same widths", ok, {"rule": "P6", "function": qn, "pad_widths": sorted(widths)})
+                if not ok:
+                    res.add(Finding("P6", m.rel, qn, pads[0], f"position and orientation are padded with different widths {sorted(widths)}", pads[0].lineno))
+    res.require(n >= 6, f"P6: only {n} np.pad calls found in the pose code")
+
+
 def run(repo, res, tier):
     res.rules = ["P1 composition/anchoring (FRAME)", "P2 rotate_from_* delegation", "P3 reject-before-mutate", "P4 paired pose writes / who-may-write"]
     frame_rules.c09_p1(repo, res)
@@ -258,6 +295,7 @@ def run(repo, res, tier):
     p3(repo, res)
     p4(repo, res)
     p4b(repo, res)
+    p6(repo, res)
     import origin_rules
     origin_rules.pose_mutations(repo, res, rule="P5")
     res.assumptions += ["SciPy/NumPy calls after the first in-place write do not raise (shapes are made consistent by path_padding before)",
